@@ -146,3 +146,31 @@ package pipeline
 //@   ensures [scalar-other] typeis(o, string) && !isWaitType(unbox(o, string)) && !isInputType(unbox(o, string)) ==>
 //@       typeis(ret, *UnknownStep) && typeis(err, *warning.Warning)
 //@   ensures [other] !typeis(o, string) && !typeis(o, *ordered.Map[string,any]) ==> ret == nil && err != nil && !typeis(err, *warning.Warning)
+
+// ---- C17: plugin source canonicalisation (rule table per branch of FullSource) ----
+
+//@ define lastSeg(n, f) := f == "" ? n ++ "-buildkite-plugin" : (n ++ "-buildkite-plugin") ++ "#" ++ f
+//@ define asWritten(s) := s == "" || hasPrefix(s, "/") || hasPrefix(s, ".") || hasPrefix(s, "\\") || urlBad(s) || urlScheme(s) != "" || urlOpaque(s) != ""
+//@ define trimmedPath(s) := trimPrefix(urlPath(s), "/")
+
+//@ define fullSource(s) := asWritten(s) ? s :
+//@     (splitN(trimmedPath(s), "/") == 1 ? pathJoin3("github.com", "buildkite-plugins", lastSeg(splitAt(trimmedPath(s), "/", 0), urlFrag(s))) :
+//@     (splitN(trimmedPath(s), "/") == 2 ? pathJoin3("github.com", splitAt(trimmedPath(s), "/", 0), lastSeg(splitAt(trimmedPath(s), "/", 1), urlFrag(s))) : s))
+
+//@ func (*Plugin).FullSource
+//@   requires p != nil
+//@   assigns nothing
+//@   ensures [rules] ret == fullSource(p.Source)
+
+//@ define emptyConfig(c) := (typeis(c, map[string]any) && len(unbox(c, map[string]any)) == 0) || (typeis(c, []any) && len(unbox(c, []any)) == 0)
+
+//@ func (*Plugin).MarshalYAML
+//@   requires p != nil
+//@   assigns nothing
+//@   ensures [shape] ret1 == nil && typeis(ret0, map[string]any) && unbox(ret0, map[string]any) != nil && fresh(unbox(ret0, map[string]any))
+//@   ensures [single] forall k string :: {has(unbox(ret0, map[string]any), k)} has(unbox(ret0, map[string]any), k) <==> k == fullSource(p.Source)
+//@   ensures [config] unbox(ret0, map[string]any)[fullSource(p.Source)] == (emptyConfig(p.Config) ? nil : p.Config)
+
+//@ func (*Plugin).MarshalJSON
+//@   requires p != nil
+//@   assigns nothing
